@@ -344,3 +344,155 @@ Proof.
   cbn [st0 nextNr lastToSend] in Er. destruct Er as (L1 & N1 & P1 & _).
   split; [reflexivity|]. split; [lia|]. split; assumption.
 Qed.
+
+(** * Completeness under $Number$ addressing: every attempt is accepted by writeSegment *)
+
+(** The representations' tables are well formed and end their segments at the same instants as
+    the reference representation (cross-multiplied: E_t(n)/ts_t = E_ref(n)/ts_ref). *)
+Definition aligned (cf : scfg) : Prop :=
+  wf (sc_ref cf) (sc_loopMS cf) /\
+  Forall (fun ir => let t := timing_tab cf ir in
+                    wf t (sc_loopMS cf) /\ forall n, 0 <= n -> E t n * ts (sc_ref cf) = E (sc_ref cf) n * ts t)
+         (sc_reps cf).
+
+(** The availability function does not answer before the segment is available (this is what the
+    float truncation violates) and at most one second after. *)
+Definition avail_on_time (cf : scfg) : Prop :=
+  forall n a, 0 <= n < two32 -> sc_avail cf n = Ok a ->
+    let r := sc_ref cf in
+    let av := availNum (E r n + startS (sc_cfg cf) * ts r) (ts r) (ato (sc_cfg cf)) in
+    av <= a * ts r <= av + 1000 * ts r.
+
+Lemma ophase_one {A} (o : outcome A) : ophase o = 1 -> exists x, o = TOk x.
+Proof. destruct o; cbn; intros H; try lia. eauto. Qed.
+
+Lemma lookup_ok_number cf t n now atoMS :
+  wf t (sc_loopMS cf) -> startNr (sc_cfg cf) = 0 -> 0 <= n < two32 -> 0 <= tsbdS (sc_cfg cf) ->
+  ato (sc_cfg cf) = Some atoMS ->
+  (let av := availNum (E t n + startS (sc_cfg cf) * ts t) (ts t) (Some atoMS) in
+   av <= now * ts t <= av + (tsbdS (sc_cfg cf) + tsbdMarginS) * 1000 * ts t) ->
+  lookup_ok t cf ByNumber n now = true.
+Proof.
+  intros W Hs Hn Htsbd Hato Hav. unfold lookup_ok. destruct (n <? 0) eqn:E0; [lia|].
+  pose proof (lookup_phase t (sc_loopMS cf) (sc_cfg cf) n now W ltac:(lia) ltac:(lia) ltac:(lia)) as Hp.
+  rewrite Hs, Z.add_0_l in Hp. rewrite Hato in Hp.
+  pose proof (checkTime_exact (E t n + startS (sc_cfg cf) * ts t) (ts t) (tsbdS (sc_cfg cf)) atoMS now (wf_ts _ _ W)) as (_ & _ & H1).
+  cbn zeta in H1. apply H1 in Hav. rewrite <- Hp in Hav. apply ophase_one in Hav. destruct Hav as [x ->]. reflexivity.
+Qed.
+
+Lemma availNum_aligned Et Er tst tsr S0 a :
+  Et * tsr = Er * tst ->
+  availNum (Et + S0 * tst) tst (Some a) * tsr = availNum (Er + S0 * tsr) tsr (Some a) * tst.
+Proof. intros H. unfold availNum. destruct (a >? 0); nia. Qed.
+
+Lemma rep_on_time cf ir n a atoMS :
+  aligned cf -> In ir (sc_reps cf) -> avail_on_time cf -> startNr (sc_cfg cf) = 0 -> 0 <= tsbdS (sc_cfg cf) ->
+  ato (sc_cfg cf) = Some atoMS -> 0 <= n < two32 -> sc_avail cf n = Ok a ->
+  lookup_ok (timing_tab cf ir) cf ByNumber n a = true.
+Proof.
+  intros [Wr Hal] Hin Hon Hs Htsbd Hato Hn Ha.
+  rewrite Forall_forall in Hal. destruct (Hal ir Hin) as [Wt Heq]. cbn zeta in Wt, Heq.
+  apply (lookup_ok_number cf _ n a atoMS); try assumption. cbn zeta.
+  specialize (Hon n a Hn Ha). cbn zeta in Hon. rewrite Hato in Hon.
+  pose proof (availNum_aligned _ _ (ts (timing_tab cf ir)) (ts (sc_ref cf)) (startS (sc_cfg cf)) atoMS (Heq n ltac:(lia))) as Hx.
+  pose proof (wf_ts _ _ Wr). pose proof (wf_ts _ _ Wt). unfold tsbdMarginS.
+  set (avt := availNum (E (timing_tab cf ir) n + startS (sc_cfg cf) * ts (timing_tab cf ir)) (ts (timing_tab cf ir)) (Some atoMS)) in *.
+  set (avr := availNum (E (sc_ref cf) n + startS (sc_cfg cf) * ts (sc_ref cf)) (ts (sc_ref cf)) (Some atoMS)) in *.
+  set (tt := ts (timing_tab cf ir)) in *. set (tr := ts (sc_ref cf)) in *.
+  split; nia.
+Qed.
+
+Lemma sendReps_number_ok cf nr now last : sc_timeline cf = false ->
+  forall reps idx ref_ok g,
+    Forall (fun ir => lookup_ok (timing_tab cf ir) cf ByNumber nr now = true) reps ->
+    sendReps cf idx reps nr now last ref_ok = Ok g ->
+    Forall (fun m => mp_ok m = true /\ mp_id m = Some nr) g.
+Proof.
+  intros Htl. induction reps as [|ir reps IH]; intros idx ref_ok g Hf H; cbn [sendReps] in H.
+  - inversion H; subst. constructor.
+  - rewrite Htl in H. inversion Hf as [|? ? Hir Hrest]; subst.
+    match type of H with (do tl <- ?X ; _) = _ => destruct X as [tl| |] eqn:E; cbn [bind] in H; try discriminate end.
+    inversion H; subst. constructor; [cbn; auto|]. eapply IH; eassumption.
+Qed.
+
+(** State consistency: the stored availability time is that of the next number. *)
+Definition consistent (cf : scfg) (st : sstate) : Prop :=
+  ph st = PRunning -> sc_avail cf (u32 (nextNr st)) = Ok (availT st).
+
+Lemma advance_consistent cf st : consistent cf (advance cf st).
+Proof.
+  unfold consistent, advance. destruct (sc_avail cf (u32 (nextNr st + 1))) eqn:E; cbn [ph nextNr availT stopped crashed]; intros H; try discriminate.
+  exact E.
+Qed.
+
+Lemma loopTop_consistent cf st : consistent cf st -> consistent cf (loopTop st).
+Proof.
+  unfold consistent. intros H Hr. pose proof (loopTop_running _ Hr) as Hr0. specialize (H Hr0).
+  unfold loopTop in *. rewrite Hr0 in *. destruct (_ && _); [discriminate|exact H].
+Qed.
+
+Definition all_ok (gs : list (list mput)) : Prop := Forall (Forall (fun m => mp_ok m = true)) gs.
+
+Theorem complete_number cf atoMS :
+  sc_test cf = true -> sc_timeline cf = false ->
+  aligned cf -> avail_on_time cf -> startNr (sc_cfg cf) = 0 -> 0 <= tsbdS (sc_cfg cf) ->
+  ato (sc_cfg cf) = Some atoMS ->
+  forall evs st gs st',
+    consistent cf st -> 0 <= nextNr st -> nextNr st + lenZ evs < two32 ->
+    run cf st evs = (gs, st') -> all_ok gs.
+Proof.
+  intros Ht Htl Hal Hon Hs Htsbd Hato.
+  induction evs as [|ev evs IH]; intros st gs st' Hc Hn Hb H; cbn [run] in H.
+  - inversion H; subst. constructor.
+  - rewrite lenZ_cons in Hb. pose proof (lenZ_nonneg evs) as Hle.
+    destruct (step cf st ev) as [g st1] eqn:Es. destruct (run cf st1 evs) as [gs1 st2] eqn:Er.
+    inversion H; subst. unfold all_ok. rewrite Forall_app.
+    unfold step in Es. destruct (ph st) eqn:Eph;
+      try (inversion Es; subst; rewrite run_dead in Er by congruence; inversion Er; subst; split; constructor).
+    destruct ev as [fi|fi|].
+    3:{ inversion Es; subst. rewrite run_dead in Er by (cbn; discriminate). inversion Er; subst. split; constructor. }
+    all: unfold fire in Es; rewrite Ht in Es;
+      destruct (sendMedia cf (nextNr st) (availT st) (nextNr st =? lastToSend st)) as [g0| |] eqn:Eg;
+      try (inversion Es; subst; rewrite run_dead in Er by (cbn; discriminate); inversion Er; subst; split; constructor).
+    all: assert (Hg0 : Forall (fun m => mp_ok m = true) g0) by
+        (unfold sendMedia in Eg; eapply Forall_impl; [|eapply (sendReps_number_ok cf _ _ _ Htl); [|exact Eg]];
+         [cbn; tauto|];
+         rewrite Forall_forall; intros ir Hin;
+         apply (rep_on_time cf ir (nextNr st) (availT st) atoMS); try assumption; [lia|];
+         specialize (Hc Eph); rewrite u32_id in Hc by lia; exact Hc).
+    all: destruct (ph (afterSend cf (fi_refuse fi) g0 st)) eqn:Ea;
+      try (inversion Es; subst; rewrite run_dead in Er by congruence; inversion Er; subst; split; [constructor; [assumption|constructor]|constructor]).
+    all: inversion Es; subst; split; [constructor; [assumption|constructor]|];
+      apply (IH _ _ _ (loopTop_consistent _ _ (advance_consistent cf st))) in Er; [exact Er| |];
+      rewrite loopTop_next, advance_next; lia.
+Qed.
+
+(** The repaired availability function (exact ceiling) satisfies [avail_on_time]: the hypothesis of
+    [complete_number] is satisfiable, and it is what proposed_fixes/C16-availability-ceil.diff aims at. *)
+Lemma availTicks_spec r loopMS c n :
+  wf r loopMS -> startNr c = 0 -> 0 <= n ->
+  availTicks r loopMS c n = Ok (E r n + startS c * ts r).
+Proof.
+  intros W Hs Hn. unfold availTicks. pose proof (nsegs_pos r loopMS W) as HN. fold (nsegs r).
+  destruct (nsegs r =? 0) eqn:E0; [lia|]. rewrite Hs, Z.sub_0_r.
+  rewrite Z.quot_div_nonneg by lia.
+  replace (n - n / nsegs r * nsegs r) with (n mod nsegs r) by (Z.div_mod_to_equations; nia).
+  rewrite (segAt_ok r) by (Z.div_mod_to_equations; lia).
+  rewrite (wrapDur_eq r loopMS W). unfold E. f_equal. lia.
+Qed.
+
+Lemma exact_on_time reps r loopMS segDur c timeline test dur chunked atoMS :
+  wf r loopMS -> startNr c = 0 -> ato c = Some atoMS -> 0 <= atoMS ->
+  avail_on_time {| sc_reps := reps; sc_ref := r; sc_loopMS := loopMS; sc_segDurMS := segDur; sc_cfg := c;
+                   sc_timeline := timeline; sc_test := test; sc_dur := dur; sc_chunked := chunked;
+                   sc_avail := availMS_exact r loopMS c |}.
+Proof.
+  intros W Hs Hato Hpos n a Hn Ha. cbn [sc_avail sc_ref sc_cfg] in *. unfold availMS_exact in Ha.
+  rewrite (availTicks_spec r loopMS c n W Hs) in Ha by lia. cbn [bind] in Ha. rewrite Hato in Ha.
+  inversion Ha; subst. cbn zeta. rewrite Hato. pose proof (wf_ts _ _ W) as Hts.
+  unfold availMS_ceil, availNumMS, availNum.
+  set (Ex := E r n + startS c * ts r).
+  destruct (atoMS >? 0) eqn:Ea.
+  - split; Z.div_mod_to_equations; nia.
+  - assert (atoMS = 0) by lia. subst atoMS. split; Z.div_mod_to_equations; nia.
+Qed.
